@@ -4,3 +4,4 @@ import DDProofs.Ext
 import DDProofs.Inv
 import DDProofs.AutoLedger
 import DDProofs.AutoProofs
+import DDProofs.AutoTemps
